@@ -15,6 +15,13 @@ def canon(t):
         return x
     return go(t)
 
+import re as _re
+_VARID = _re.compile(r"(\$[A-Za-z_][A-Za-z0-9]*?)_\d+")
+def novarid(txt):
+    """the numeric id that Display appends to an unbound variable's name is not part of any property:
+    the reference search numbers its fresh variables differently (answers are compared up to renaming)"""
+    return _VARID.sub(r"\1_#", txt) if txt is not None else None
+
 def split_out(iout):
     return iout.split("\x03")
 
@@ -84,7 +91,7 @@ def check_hist(case, iout, ires, spec_text, want=("answers", "output", "exhauste
                     if "answers" in want:
                         yield ("answers", "answer %d of query %d is %s; the reference search gives %s" % (pos[q] + 1, q, sx_text(got), sx_text(ea)), {})
                     return
-                if seg_out != eo and "output" in want:
+                if novarid(seg_out) != novarid(eo) and "output" in want:
                     yield ("output", "output while deriving answer %d of query %d is %r; the reference search writes %r" % (pos[q] + 1, q, seg_out, eo), {})
                     return
                 pos[q] += 1
@@ -96,7 +103,7 @@ def check_hist(case, iout, ires, spec_text, want=("answers", "output", "exhauste
                                % (pos[q] + 1, q, sx_text(o[2]), len(segs), " (the query had already reported no more answers)" if done[q] else ""), {})
                     return
                 exp = "" if done[q] else end_out
-                if seg_out != exp:
+                if novarid(seg_out) != novarid(exp):
                     kind = "exhausted" if done[q] else "output"
                     if kind in want:
                         yield (kind, "output of a request that finds no answer is %r; expected %r" % (seg_out, exp), {})
@@ -106,7 +113,7 @@ def check_hist(case, iout, ires, spec_text, want=("answers", "output", "exhauste
             txt = sx.unS(o[1])
             if txt.startswith("Query timed out"): continue
             if pos[q] < len(segs):
-                if txt != segs[pos[q]][2] and "strings" in want and segs[pos[q]][2] is not None:
+                if novarid(txt) != novarid(segs[pos[q]][2]) and "strings" in want and segs[pos[q]][2] is not None:
                     yield ("strings", "solve reports %r; the reference answer %d is %r" % (txt, pos[q] + 1, segs[pos[q]][2]), {}); return
                 pos[q] += 1
             else:
@@ -117,7 +124,7 @@ def check_hist(case, iout, ires, spec_text, want=("answers", "output", "exhauste
             strs = [sx.unS(x) for x in o[1:-1]]
             if strs and strs[-1].startswith("Query timed out"): continue
             exp = [x[2] for x in segs[pos[q]:]]
-            if strs != exp and "strings" in want and None not in exp:
+            if [novarid(x) for x in strs] != [novarid(x) for x in exp] and "strings" in want and None not in exp:
                 yield ("strings", "solve_all reports %r; the reference answers are %r" % (strs, exp), {}); return
             pos[q] = len(segs); done[q] = True
 
@@ -134,4 +141,11 @@ def equivalent(case, i_obs, m_obs):
     (iout, ires), (mout, mres) = i_obs, m_obs
     if ires == "diverged":
         return mres.endswith(" fuel)")
-    return ires == mres and ELAPSED.sub("<elapsed> ", iout) == mout
+    if ires != mres: return False
+    io, mo = ELAPSED.sub("<elapsed> ", iout).split("\x03"), mout.split("\x03")
+    if ires.endswith(" panic)"):
+        # what the panicking operation had written before it panicked is not modelled
+        n = ires.count("(") - 1  # not used; compare all segments but the last non-empty one
+        k = len(sx.parse(ires)) - 2          # index of the panicking operation
+        return io[:k] == mo[:k]
+    return io == mo
